@@ -175,7 +175,8 @@ def model_check(name, case, rec):
 # ---------------------------------------------------------------------------------------------------------------
 MIXED = ["ThreeFieldVariation(NeoHooke)", "NearlyIncompressible(NeoHooke)", "NearlyIncompressible(NeoHooke, U=K/4(J^2-1-2lnJ))", "ThreeFieldVariation(tt:yeoh)", "NearlyIncompressible(tt:mooney_rivlin)",
          "ThreeFieldVariation(OgdenRoxburgh)", "NearlyIncompressible(jax:yeoh)", "ThreeFieldVariation(user:nonsymmetric-tangent)",
-         "NearlyIncompressible(user:nonsymmetric-tangent)"]
+         "NearlyIncompressible(user:nonsymmetric-tangent)", "ThreeFieldVariation(tt:finite_strain_viscoelastic & Volumetric)",
+         "NearlyIncompressible(tt:finite_strain_viscoelastic)"]
 
 
 def mixed_strategy(name, tier):
@@ -216,6 +217,13 @@ def mixed_build(name, c):
 
         base = fem.Material(stress, elasticity, mu=c["mu"], beta=0.2 + c["c2"])
         return (fem.ThreeFieldVariation(base) if name.startswith("Three") else fem.NearlyIncompressible(base, bulk=c["bulk"])), 0
+    if name in ("ThreeFieldVariation(tt:finite_strain_viscoelastic & Volumetric)", "NearlyIncompressible(tt:finite_strain_viscoelastic)"):
+        # a history material whose state update is NOT idempotent (evaluating twice moves the state twice): stress and every block of
+        # the tangent are those of the SAME stored state
+        visco = gmat.build("tt:finite_strain_viscoelastic", {"mu": c["mu"], "eta": 1.0 + 10 * c["c2"], "dtime": 0.5})
+        if name.startswith("Three"):
+            return fem.ThreeFieldVariation(visco & fem.Volumetric(bulk=c["bulk"])), 6
+        return fem.NearlyIncompressible(visco, bulk=c["bulk"]), 6
     if name == "ThreeFieldVariation(OgdenRoxburgh)":
         return fem.ThreeFieldVariation(fem.OgdenRoxburgh(fem.NeoHooke(mu=c["mu"], bulk=c["bulk"]), r=3.0, m=1.0, beta=c["c2"])), 1
     raise KeyError(name)
